@@ -809,3 +809,25 @@ by rewrite H4 /= Hsub (Hel _ Hy) mulrCA mulfV ?mulr1.
 Qed.
 
 End Readable.
+
+(* ---- non-vacuity: the contract of the solve oracle is satisfiable whenever the system is well posed ---- *)
+Section NonVacuity.
+Variable F : realFieldType.
+Notation O := (MCOps F).
+
+Theorem hp_contract_satisfiable n (lam : F) (data : list (option F)) (lc cc : list (nat * F)) :
+  hp_M O n lam data lc cc \in unitmx ->
+  let solve := fun m (A : 'M[F]_m) (b : 'cV[F]_m) => invmx A *m b in
+  hp_M O n lam data lc cc *m solve _ (hp_M O n lam data lc cc) (hp_rhs O n data lc cc) = hp_rhs O n data lc cc.
+Proof. by move=> Hu /=; rewrite mulKVmx. Qed.
+
+(* without constraints: lam > 0 and two observations are enough *)
+Theorem hp_unconstrained_wellposed n (lam : F) (data : list (option F)) (i1 i2 : nat) :
+  0 < lam -> (i1 < i2 < n)%N -> obs_at O data i1 -> obs_at O data i2 ->
+  hp_M O n lam data [::] [::] \in unitmx.
+Proof.
+move=> Hl Hi O1 O2; apply: (hp_wellposed Hl Hi O1 O2) => mu _.
+by apply/matrixP => i; case: i => i Hi0; exfalso; move: Hi0; rewrite /= ltn0.
+Qed.
+
+End NonVacuity.
